@@ -178,11 +178,13 @@ def run(s):
     s.oblige("C15.table_callsites", table_callsites, ["calculator.CijVolumeBaseInterface.write_table", "calculator.CijPressureBaseInterface.write_table",
                                                        "calculator.Calculator.write_output", "calculator.CijVolumeBaseInterface.write_variables"])
     # ---------------- 5. file round trip, bounded
+    if s.__dict__.get("_p"):          # a sub-session registers the registry / writer-path obligations only
+        return
     round_trip(s, cal)
     # column labels P_MIN + j DELTA_P (j < NTV): the pressure grid the tables are written on comes from the QHA layer (qha_adapter.py); C06's obligation is registered here as well
     if not s.__dict__.get("_p"):          # not when this check itself runs as a sub-session of another property
         from props import C06
-        C06.run(core.SubSession(s, lambda n: n.replace("C06.", "C15.grid."), lambda n: n == "C06.pressure_grid_is_the_requested_one"))
+        core.SubSession(s, lambda n: n.replace("C06.", "C15.grid."), lambda n: n == "C06.pressure_grid_is_the_requested_one").run(C06)
     s.min_obligations = 3
 
 
